@@ -23,6 +23,7 @@ import (
 	"time"
 
 	"github.com/go-task/task/v3"
+	tsort "github.com/go-task/task/v3/internal/sort"
 	"github.com/go-task/task/v3/internal/verifhook"
 	"github.com/go-task/task/v3/taskfile/ast"
 	"github.com/go-task/task/v3/verifh/p09"
@@ -185,7 +186,7 @@ func (c *comp) compiled(tag, name string, t *ast.Task, err error) {
 var devnull *os.File
 
 // load performs one complete load of a tree and returns kind -> canonical text.
-func load(t *p09.Tree, dry bool) map[string]string {
+func load(t *p09.Tree, dry bool, seq int) map[string]string {
 	c := newComp()
 	var so, se bytes.Buffer
 	e := task.NewExecutor()
@@ -251,10 +252,49 @@ func load(t *p09.Tree, dry bool) map[string]string {
 			c.add("dry-run", "$ task --dry %s  => %s\n%s%s", name, es, se.String(), so.String())
 		}
 	}
+	observed := map[string]bool{}
+	if err == nil && e.Taskfile != nil {
+		// really execute the tasks whose commands only print what they see
+		if len(t.Exec) > 0 {
+			observed["run-output"] = true
+			e.Dry = false
+			for _, name := range t.Exec {
+				so.Reset()
+				se.Reset()
+				rerr := e.Run(context.Background(), &task.Call{Task: name})
+				es := "ok"
+				if rerr != nil {
+					es = fmt.Sprintf("%T %v", rerr, rerr)
+				}
+				c.add("run-output", "$ task %s  => %s\n%s%s", name, es, se.String(), so.String())
+			}
+			e.Dry = true
+		}
+		// the listing with one of the sorters in one of the formats, in rotation
+		sorter := p09.Sorters[seq%3]
+		format := []string{"text", "json"}[(seq/3)%2]
+		switch sorter {
+		case "default":
+			e.TaskSorter = tsort.AlphaNumericWithRootTasksFirst
+		case "alphanumeric":
+			e.TaskSorter = tsort.AlphaNumeric
+		case "none":
+			e.TaskSorter = tsort.NoSort
+		}
+		so.Reset()
+		se.Reset()
+		_, lerr := e.ListTasks(task.ListOptions{ListAllTasks: true, FormatTaskListAsJSON: format == "json", NoStatus: true})
+		kind := "list-" + sorter + "-" + format
+		observed[kind] = true
+		c.add(kind, "err=%v\n%s%s", lerr, so.String(), se.String())
+	}
 	out := map[string]string{}
 	for k, b := range c.b {
 		if k == "dry-run" && !dry {
 			continue // not observed in this load
+		}
+		if (k == "run-output" || strings.HasPrefix(k, "list-")) && !observed[k] {
+			continue
 		}
 		out[k] = b.String()
 	}
@@ -285,6 +325,8 @@ type hookState struct {
 	parked  chan string
 	linked  chan string
 }
+
+var loadSeq atomic.Int64
 
 var cur atomic.Pointer[hookState]
 var events atomic.Int64
@@ -321,7 +363,7 @@ func loadOrdered(t *p09.Tree, perm []string) (comps map[string]string, linked []
 	cur.Store(st)
 	defer cur.Store(nil)
 	done := make(chan map[string]string, 1)
-	go func() { done <- load(t, true) }()
+	go func() { done <- load(t, true, int(loadSeq.Add(1))) }()
 	released := map[string]bool{}
 	releaseAll := func() {
 		for ns, ch := range st.release {
@@ -369,6 +411,11 @@ func loadOrdered(t *p09.Tree, perm []string) (comps map[string]string, linked []
 	return comps, linked, parked, ""
 }
 
+// progress records how many loads of the tree completed, for the driver to read if this process never returns.
+func progress(out string, tree, done int) {
+	os.WriteFile(out+".progress", []byte(fmt.Sprintf("%d %d\n", tree, done)), 0o644)
+}
+
 func perms(l []string) [][]string {
 	if len(l) <= 1 {
 		return [][]string{append([]string(nil), l...)}
@@ -407,9 +454,11 @@ func main() {
 		os.Chdir(t.Dir)
 		res := &p09.TreeResult{Tree: t.Index, GMP: job.GMP, Free: map[string]*p09.Obs{}, Hook: map[string]*p09.Obs{}}
 		for i := 0; i < job.Loads; i++ {
-			comps := load(t, job.DryEvery <= 1 || i%job.DryEvery == 0)
+			comps := load(t, job.DryEvery <= 1 || i%job.DryEvery == 0, i)
 			record(res.Free, comps)
 			res.Loads++
+			res.Done++
+			progress(os.Args[2], t.Index, res.Done)
 			if i == 0 {
 				var sb strings.Builder
 				for _, k := range p09.Kinds {
@@ -441,6 +490,8 @@ func main() {
 						}
 						pr.Linked = linked
 						pr.Repeats++
+						res.Done++
+						progress(os.Args[2], t.Index, res.Done)
 						hs := record(res.Hook, comps)
 						for k, hv := range hs {
 							pr.Hashes[k] = append(pr.Hashes[k], hv)
